@@ -319,13 +319,91 @@ def rule_cleanup(program, ctx):
         ctx.bad(finding_func(P, rid, cl, "cleanup drops an address although some of its command deques are still active", text="def cleanup(...) :: all idle"))
 
 
+def rule_parse(program, ctx, prop=P, rid="C18.parse"):
+    ctx.rule(
+        rid,
+        "every configured rule is kept: RateLimiter.parse_option accumulates one (interval, n) pair per 'n/interval' item in a list (append) - not in a mapping keyed by the "
+        "interval, where a later item for the same window silently replaces an earlier, possibly stricter one ('3/s,10/sec' would admit 10 per second)",
+        floor=1,
+    )
+    fn = program.func("nostr_relay.rate_limiter:RateLimiter.parse_option")
+    loop = next((l for l in walk_no_nested(fn) if isinstance(l, ast.For) and "split" in ast.unparse(l.iter)), None)
+    if loop is None:
+        ctx.bad(finding_func(prop, rid, fn, "parse_option no longer iterates the comma-separated rules", text="def parse_option(...) :: loop"))
+        return
+    keyed = [s for s in ast.walk(loop) if isinstance(s, (ast.Assign, ast.AugAssign)) and any(isinstance(t, ast.Subscript) for t in (s.targets if isinstance(s, ast.Assign) else [s.target]))]
+    keyed += [c for c in ast.walk(loop) if isinstance(c, ast.Call) and isinstance(c.func, ast.Attribute) and c.func.attr in ("setdefault", "update") and c.args]
+    appends = [c for c in ast.walk(loop) if isinstance(c, ast.Call) and isinstance(c.func, ast.Attribute) and c.func.attr in ("append", "add") and c.args and isinstance(c.args[0], ast.Tuple) and len(c.args[0].elts) == 2]
+    if keyed:
+        ctx.bad(finding_at(prop, rid, keyed[0], "rules are collected in a mapping keyed by the window length: of two rules for the same window only the last survives - the limiter then lets "
+                           "through more messages per window than a configured rule allows"))
+    elif not appends:
+        ctx.bad(finding_at(prop, rid, loop, "no (interval, n) pair is appended per configured rule"))
+    else:
+        ctx.ok(rid, appends[0], f"one pair per item: {norm(appends[0], 60)}")
+        # the appended list is what is returned (sorted in place or via sorted())
+        lst = dotted(appends[0].func.value)
+        rets = [r for r in walk_no_nested(fn) if isinstance(r, ast.Return) and r.value is not None]
+        for r in rets:
+            src = ast.unparse(r.value)
+            if isinstance(r.value, (ast.Dict, ast.DictComp)) or "dict(" in src:
+                ctx.bad(finding_at(prop, rid, r, "the parsed rules pass through a dict: duplicates of one window collapse"))
+            elif lst not in src:
+                ctx.bad(finding_at(prop, rid, r, f"parse_option returns `{src[:50]}`, not the list the rules were appended to"))
+
+
+def rule_history(program, ctx, prop=P, rid="C18.history"):
+    ctx.rule(
+        rid,
+        "admission history is forgotten only when it can no longer count: `recent_commands` is a plain collections.defaultdict (no evicting container), and entries are removed "
+        "from it only in RateLimiter.cleanup (idle addresses) - a size-capped / LRU history drops timestamps that are still inside a rule's window (the `global` scope first) "
+        "and hands out a fresh quota",
+        floor=2,
+    )
+    init = program.func("nostr_relay.rate_limiter:RateLimiter.__init__")
+    st = next((s for s in walk_no_nested(init) if isinstance(s, ast.Assign) and dotted(s.targets[0]) == "self.recent_commands"), None)
+    if st is None:
+        ctx.bad(finding_func(prop, rid, init, "recent_commands is no longer created in __init__", text="def __init__(...) :: recent_commands"))
+    elif isinstance(st.value, ast.Call) and call_name(st.value) in ("collections.defaultdict", "defaultdict"):
+        ctx.ok(rid, st, "recent_commands = defaultdict(...)")
+    elif isinstance(st.value, ast.Call) and program.classes.get(f"nostr_relay.rate_limiter:{call_name(st.value)}") is not None and not any(
+            (isinstance(c, ast.Call) and isinstance(c.func, ast.Attribute) and c.func.attr in ("pop", "popitem", "clear", "move_to_end")) or isinstance(c, ast.Delete)
+            for c in ast.walk(program.classes[f"nostr_relay.rate_limiter:{call_name(st.value)}"].node)):
+        ctx.ok(rid, st, f"recent_commands = {call_name(st.value)}(...) - a container class of this module that never removes entries")
+    else:
+        ctx.bad(finding_at(prop, rid, st, f"recent_commands is a `{ast.unparse(st.value)[:50]}`, not a plain defaultdict: a container that evicts (size cap, LRU, TTL) forgets admissions that still "
+                           "count against a rule - after enough other addresses were seen an address (or the global scope) gets a fresh quota"))
+    m = program.module("nostr_relay.rate_limiter")
+    n = 0
+    for fn in [f for f in ast.walk(m.tree) if isinstance(f, (ast.FunctionDef, ast.AsyncFunctionDef))]:
+        for c in walk_no_nested(fn):
+            rm = None
+            if isinstance(c, ast.Delete) and any(isinstance(t, ast.Subscript) and "recent_commands" in ast.unparse(t.value) for t in c.targets):
+                rm = c
+            if isinstance(c, ast.Call) and isinstance(c.func, ast.Attribute) and c.func.attr in ("pop", "popitem", "clear") and "recent_commands" in ast.unparse(c.func.value) and "[" not in ast.unparse(c.func.value):
+                rm = c
+            if rm is not None:
+                n += 1
+                if fn.name == "cleanup":
+                    ctx.ok(rid, rm, f"removal in cleanup: {norm(rm, 50)}")
+                else:
+                    ctx.bad(finding_at(prop, rid, rm, f"{qual_of(fn)} removes a scope's admission history outside cleanup()"))
+    if not n:
+        ctx.info(rid, m.tree, "no removal from recent_commands at all (C18.bounded covers growth)")
+
+
 def run(program, ctx):
+    from ..lib import rule_awaited
+
+    rule_awaited(program, ctx, P, ANCHORS)
     rule_consulted(program, ctx)
     rule_record(program, ctx)
     rule_bounded_ends(program, ctx)
     rule_allrules(program, ctx)
     rule_precedence(program, ctx)
     rule_cleanup(program, ctx)
+    rule_parse(program, ctx)
+    rule_history(program, ctx)
     ctx.not_decided += [
         "the sliding-window invariant itself (never more than n admitted in any window; refused only if some rule is exhausted) - arithmetic over runtime clocks and sequences",
         "rule parsing, IPv6 literals (the precedence test looks for '.' in the key), -1 exemption",
